@@ -69,7 +69,11 @@ func parseT4T7Latency(headers, trailers metadata.MD) (time.Duration, error) {
 		if err != nil {
 			return 0, fmt.Errorf("failed to parse gfe latency: %v", err)
 		}
-		return time.Duration(durationMillis) * time.Millisecond, nil
+		latency := time.Duration(durationMillis) * time.Millisecond
+		if latency/time.Millisecond != time.Duration(durationMillis) {
+			return 0, fmt.Errorf("failed to parse gfe latency: %vms is out of range", durationMillis)
+		}
+		return latency, nil
 	}
 	return 0, fmt.Errorf("no gfe latency response available")
 }
